@@ -32,6 +32,9 @@ type e2 struct {
 	lockIn     map[*ssa.Function]map[ssa.Instruction]map[string]string
 	entryLocks map[*ssa.Function]map[string]string
 	originMemo map[ssa.Value]string
+	lfBusy     map[string]bool
+	sfMemo     map[ssa.Value]*sfResult
+	payloadFlag bool
 }
 
 var e2shared *e2
@@ -189,7 +192,7 @@ func mayRunInParallel(a, b string) bool {
 // state, "fresh" if allocated in this activation (or decoded by a library),
 // "?" otherwise. The string after ':' names the state field it was loaded from.
 func (e *e2) origin(v ssa.Value, depth int) string {
-	if v == nil || depth > 10 {
+	if v == nil || depth > 40 {
 		return "?"
 	}
 	if o, ok := e.originMemo[v]; ok {
@@ -247,7 +250,7 @@ func (e *e2) originCompute(v ssa.Value, depth int) string {
 				return "shared:goroutine"
 			}
 		}
-		if len(sites) == 0 || depth > 4 {
+		if len(sites) == 0 || depth > 30 {
 			if _, ok := e.isStateType(x.Type()); ok {
 				return "shared:param"
 			}
@@ -307,6 +310,13 @@ func (e *e2) originCompute(v ssa.Value, depth int) string {
 	case *ssa.FieldAddr:
 		return e.origin(x.X, depth+1)
 	case *ssa.Field:
+		if isRepoStruct(x.X.Type()) {
+			if _, isState := e.isStateType(x.X.Type()); !isState {
+				if o, ok := e.localFieldOrigin(structFieldOf(x.X.Type(), x.Field), depth); ok {
+					return o
+				}
+			}
+		}
 		return e.origin(x.X, depth+1)
 	case *ssa.IndexAddr:
 		return e.origin(x.X, depth+1)
@@ -348,6 +358,14 @@ func (e *e2) originCompute(v ssa.Value, depth int) string {
 					return res
 				}
 			}
+			// field of a request-local repository struct (segOut, chunk, ...): field-based join over what is stored into it
+			if fa, ok := x.X.(*ssa.FieldAddr); ok && isRepoStruct(fa.X.Type()) {
+				if _, isState := e.isStateType(fa.X.Type()); !isState {
+					if o, ok := e.localFieldOrigin(structFieldOf(fa.X.Type(), fa.Field), depth); ok {
+						return o
+					}
+				}
+			}
 			// a loaded pointer/slice/map: shared if loaded from shared memory
 			return e.origin(x.X, depth+1)
 		}
@@ -370,7 +388,29 @@ func (e *e2) originCompute(v ssa.Value, depth int) string {
 			return "?"
 		}
 		if !e.p.isRepoFunc(callee) {
-			return "fresh" // library constructors / decoders return new objects
+			// library call: the result may alias its pointer-like arguments (a reader over a buffer,
+			// a decoded object whose payload points into the input, a value loaded from a sync.Map).
+			n := callee.String()
+			if n == "(*sync.Pool).Get" {
+				return "fresh" // exclusively owned between Get and Put
+			}
+			if libResultAliasesArgs(callee) {
+				res := "fresh"
+				for _, a := range x.Call.Args {
+					if !isPointerLike(a.Type()) {
+						continue
+					}
+					o := e.origin(a, depth+1)
+					if strings.HasPrefix(o, "shared") {
+						return o
+					}
+					if o == "?" {
+						res = "?"
+					}
+				}
+				return res
+			}
+			return "fresh" // library constructors return new objects
 		}
 		// repository function: shared if any returned value is shared
 		res := "fresh"
@@ -400,10 +440,53 @@ func (e *e2) originCompute(v ssa.Value, depth int) string {
 // stateFieldOfAddr: the server-state field an address belongs to.
 // direct: addr is &x.F with x of a state type. through: addr lies inside an
 // object loaded from a state field (e.g. *ch.mpd ... AvailabilityStartTime).
+type sfResult struct {
+	field   string
+	through bool
+	ok      bool
+	payload bool // reached through a decoder/reader: only the byte payload aliases the shared buffer, the decoded structs are fresh
+}
+
 func (e *e2) stateFieldOfAddr(addr ssa.Value, depth int) (field string, through bool, ok bool) {
-	if depth > 10 {
+	if addr == nil || depth > 60 {
 		return "", false, false
 	}
+	if e.sfMemo == nil {
+		e.sfMemo = map[ssa.Value]*sfResult{}
+	}
+	if r, done := e.sfMemo[addr]; done {
+		if r == nil {
+			return "", false, false // in progress (cycle)
+		}
+		if r.payload {
+			e.payloadFlag = true
+		}
+		return r.field, r.through, r.ok
+	}
+	e.sfMemo[addr] = nil
+	outer := e.payloadFlag
+	e.payloadFlag = false
+	f, t, k := e.stateFieldOfAddr1(addr, depth)
+	mine := e.payloadFlag && k
+	e.sfMemo[addr] = &sfResult{f, t, k, mine}
+	e.payloadFlag = outer || mine
+	return f, t, k
+}
+
+// payloadOnly reports whether the last resolution of addr went through a decoder.
+func (e *e2) payloadOnly(addr ssa.Value) bool {
+	if r := e.sfMemo[addr]; r != nil {
+		return r.payload
+	}
+	return false
+}
+
+func isDecoderAlias(callee *ssa.Function) bool {
+	n := callee.String()
+	return strings.HasPrefix(n, "github.com/Eyevinn/mp4ff/bits.New") || strings.HasPrefix(n, "github.com/Eyevinn/mp4ff/mp4.Decode") || n == "bytes.NewBuffer" || n == "bytes.NewReader"
+}
+
+func (e *e2) stateFieldOfAddr1(addr ssa.Value, depth int) (field string, through bool, ok bool) {
 	switch x := addr.(type) {
 	case *ssa.FieldAddr:
 		if tid, isState := e.isStateType(x.X.Type()); isState {
@@ -430,10 +513,27 @@ func (e *e2) stateFieldOfAddr(addr ssa.Value, depth int) (field string, through 
 				}
 				return "", false, false
 			}
+			if fa, ok := x.X.(*ssa.FieldAddr); ok && isRepoStruct(fa.X.Type()) {
+				if _, isState := e.isStateType(fa.X.Type()); !isState {
+					if f, ok := e.localFieldState(structFieldOf(fa.X.Type(), fa.Field), depth); ok {
+						return f, true, true
+					}
+				}
+			}
 			// value loaded from an address: the loaded pointer points into the graph of that field
 			f, _, ok := e.stateFieldOfAddr(x.X, depth+1)
 			return f, true, ok
 		}
+	case *ssa.Field:
+		if isRepoStruct(x.X.Type()) {
+			if _, isState := e.isStateType(x.X.Type()); !isState {
+				if f, ok := e.localFieldState(structFieldOf(x.X.Type(), x.Field), depth); ok {
+					return f, true, true
+				}
+			}
+		}
+		f, _, ok := e.stateFieldOfAddr(x.X, depth+1)
+		return f, true, ok
 	case *ssa.Slice:
 		f, _, ok := e.stateFieldOfAddr(x.X, depth+1)
 		return f, true, ok
@@ -454,9 +554,6 @@ func (e *e2) stateFieldOfAddr(addr ssa.Value, depth int) (field string, through 
 			if q == x {
 				idx = i
 			}
-		}
-		if depth > 4 {
-			return "", false, false
 		}
 		for _, s := range e.p.callersOf(fn) {
 			if !e.p.isRepoFunc(s.Parent()) {
@@ -482,9 +579,29 @@ func (e *e2) stateFieldOfAddr(addr ssa.Value, depth int) (field string, through 
 		return e.stateFieldOfAddr(x.X, depth+1)
 	case *ssa.ChangeType:
 		return e.stateFieldOfAddr(x.X, depth+1)
+	case *ssa.TypeAssert:
+		return e.stateFieldOfAddr(x.X, depth+1)
+	case *ssa.MakeInterface:
+		return e.stateFieldOfAddr(x.X, depth+1)
+	case *ssa.Global:
+		if x.Pkg != nil && isRepoPkgPath(x.Pkg.Pkg.Path()) {
+			return "global:" + shortPkg(x.Pkg.Pkg.Path()) + "." + x.Name(), false, true
+		}
 	case *ssa.Call:
 		// result of a repository getter returning shared state (GetChannel)
 		callee := x.Call.StaticCallee()
+		if callee != nil && !e.p.isRepoFunc(callee) && libResultAliasesArgs(callee) {
+			for _, a := range x.Call.Args {
+				if isPointerLike(a.Type()) {
+					if f, _, ok := e.stateFieldOfAddr(a, depth+1); ok {
+						if isDecoderAlias(callee) {
+							e.payloadFlag = true
+						}
+						return f, true, true
+					}
+				}
+			}
+		}
 		if callee != nil && e.p.isRepoFunc(callee) {
 			for _, b := range callee.Blocks {
 				if ret, ok := b.Instrs[len(b.Instrs)-1].(*ssa.Return); ok {
@@ -677,9 +794,36 @@ func (e *e2) collect() {
 	for _, fn := range fns {
 		ls := e.locksets(fn)
 		add := func(in ssa.Instruction, addr ssa.Value, write bool) {
+			e.payloadFlag = false
 			f, through, ok := e.stateFieldOfAddr(addr, 0)
 			if !ok {
 				return
+			}
+			if e.payloadOnly(addr) {
+				// only writes to the payload bytes touch the shared buffer
+				payloadWrite := false
+				if write {
+					switch x := in.(type) {
+					case *ssa.Store:
+						if ia, ok := x.Addr.(*ssa.IndexAddr); ok {
+							if sl, ok := ia.X.Type().Underlying().(*types.Slice); ok {
+								if b, ok := sl.Elem().Underlying().(*types.Basic); ok && b.Kind() == types.Uint8 {
+									payloadWrite = true
+								}
+							}
+						}
+					case ssa.CallInstruction:
+						if c := x.Common().StaticCallee(); c != nil && (strings.HasSuffix(c.String(), ".EncryptFragment") || strings.HasSuffix(c.String(), ".DecryptFragment") || c.Name() == "copy") {
+							payloadWrite = true
+						}
+						if bi, ok := x.Common().Value.(*ssa.Builtin); ok && bi.Name() == "copy" {
+							payloadWrite = true
+						}
+					}
+				}
+				if !payloadWrite {
+					return
+				}
 			}
 			if idx := strings.LastIndex(f, "."); idx >= 0 {
 				if tid := f[:idx]; len(e.mutexOf[tid]) > 0 {
@@ -753,6 +897,20 @@ func (e *e2) collect() {
 	}
 }
 
+// libResultAliasesArgs: library functions whose result keeps pointing into an argument.
+func libResultAliasesArgs(callee *ssa.Function) bool {
+	n := callee.String()
+	switch {
+	case strings.HasPrefix(n, "github.com/Eyevinn/mp4ff/bits.New"),
+		strings.HasPrefix(n, "github.com/Eyevinn/mp4ff/mp4.Decode"),
+		n == "bytes.NewBuffer", n == "bytes.NewReader",
+		n == "(*sync.Map).Load", n == "(*sync.Map).LoadOrStore", n == "(*sync.Map).Swap",
+		n == "(*bytes.Buffer).Bytes":
+		return true
+	}
+	return false
+}
+
 // knownMutator: library functions that modify the object passed at arg index.
 func knownMutator(callee *ssa.Function, argIdx int) bool {
 	n := callee.String()
@@ -761,6 +919,10 @@ func knownMutator(callee *ssa.Function, argIdx int) bool {
 		return argIdx == 0
 	case n == "encoding/json.Unmarshal", n == "(*encoding/json.Decoder).Decode":
 		return argIdx == 1
+	case n == "github.com/Eyevinn/mp4ff/mp4.EncryptFragment", n == "github.com/Eyevinn/mp4ff/mp4.DecryptFragment":
+		return argIdx == 0 // encrypts the sample data in place
+	case n == "(*bytes.Buffer).Reset", n == "(*bytes.Buffer).Write", n == "(*bytes.Buffer).WriteString", n == "(*bytes.Buffer).Truncate":
+		return argIdx == 0
 	case strings.HasPrefix(n, "(*github.com/Eyevinn/dash-mpd/mpd.") && argIdx == 0:
 		m := callee.Name()
 		return strings.HasPrefix(m, "Append") || strings.HasPrefix(m, "Set") || strings.HasPrefix(m, "Add")
@@ -807,6 +969,9 @@ func (e *e2) ruleRace(r *Reporter, rule string, typeFilter func(tid string) bool
 	sort.Strings(fields)
 	for _, f := range fields {
 		tid := f[:strings.LastIndex(f, ".")]
+		if strings.HasPrefix(f, "global:") {
+			tid = f
+		}
 		if typeFilter != nil && !typeFilter(tid) {
 			continue
 		}
@@ -970,4 +1135,70 @@ func localCell(v ssa.Value) *ssa.Alloc {
 		}
 	}
 	return nil
+}
+
+// localFieldOrigin: origin of the values stored into a field of a request-local
+// repository struct anywhere in serving-phase code (field-based).
+func (e *e2) localFieldOrigin(field string, depth int) (string, bool) {
+	if depth > 30 {
+		return "", false
+	}
+	if e.lfBusy == nil {
+		e.lfBusy = map[string]bool{}
+	}
+	if e.lfBusy[field] {
+		return "", false
+	}
+	e.lfBusy[field] = true
+	defer delete(e.lfBusy, field)
+	res := "fresh"
+	n := 0
+	for _, st := range fieldStores(e.p, field) {
+		if _, serving := e.classOf[st.Parent()]; !serving {
+			continue
+		}
+		if !isPointerLike(st.Val.Type()) {
+			continue
+		}
+		n++
+		o := e.origin(st.Val, depth+2)
+		if strings.HasPrefix(o, "shared") {
+			return o, true
+		}
+		if o == "?" {
+			res = "?"
+		}
+	}
+	if n == 0 {
+		return "", false
+	}
+	return res, true
+}
+
+// localFieldState: the server-state field that values stored into a request-local struct field point into.
+func (e *e2) localFieldState(field string, depth int) (string, bool) {
+	if depth > 50 {
+		return "", false
+	}
+	if e.lfBusy == nil {
+		e.lfBusy = map[string]bool{}
+	}
+	k := "S:" + field
+	if e.lfBusy[k] {
+		return "", false
+	}
+	e.lfBusy[k] = true
+	defer delete(e.lfBusy, k)
+	for _, st := range fieldStores(e.p, field) {
+		if _, serving := e.classOf[st.Parent()]; !serving {
+			continue
+		}
+		if !isPointerLike(st.Val.Type()) {
+			continue
+		}
+		if f, _, ok := e.stateFieldOfAddr(st.Val, depth+2); ok {
+			return f, true
+		}
+	}
+	return "", false
 }
